@@ -43,6 +43,41 @@ def cell_scenario(lroute, op, rroute):
     return s
 
 
+def context_family(rng):
+    """The same reference text typed in two contexts: two sibling thread groups that give their variable the SAME
+    name but spawn from lists of different item types, each with a threaded action comparing that variable."""
+    items = []
+    LISTS = {"STRING_LIST": 3, "NUMERIC_LIST": 4, "BOOLEAN_LIST": 5, "OBJECT_LIST": 7}
+    LIT = {"STRING": "SStr", "NUMERIC": "SInt", "BOOLEAN": "SBool"}
+    for (t1, a1), (t2, a2) in itertools.product(LISTS.items(), LISTS.items()):
+        for swap in (False, True):
+            s = base_scenario()
+            s["checkpoints"][0]["deps"] = [("cmp", ("act", ("action", 0), [0]), "EQUALS", ("lit", "SStr", 1))]
+            s["checkpoints"].append({"id": 1, "alias": 501, "gate": None, "deps": [("cmp", ("act", ("action", 0), [1]), "EQUALS", ("lit", "SInt", 2))], "ctx": None})
+            gids = [1, 12]
+            for k, (t, a, cp) in enumerate(((t1, a1, 0), (t2, a2, 1))):
+                g = gids[k]
+                s["groups"].append({"id": g, "name": 600 + g, "ctx": None, "dep": ("checkpoint", cp), "src": ("P", ("promise", 0), [a]), "var": 7})
+                item = t[:-5]
+                if item == "OBJECT":
+                    dep = ("cmp", ("var", g, [0]), "EQUALS", ("lit", "SStr", 10 + k))
+                else:
+                    dep = ("cmp", ("var", g, []), "EQUALS", ("lit", LIT[item], 10 + k))
+                cid, aid = 10 + k, 20 + k
+                s["checkpoints"].append({"id": cid, "alias": 500 + cid, "gate": None, "deps": [dep], "ctx": ("group", g)})
+                s["promises"].append({"id": aid, "name": 300 + aid, "type": ("type", 0), "ctx": ("group", g)})
+                s["actions"].append({"id": aid, "name": 400 + aid, "party": ("party", 0), "promise": ("promise", aid), "ctx": ("group", g),
+                                     "dep": ("checkpoint", cid), "op": {"incl": ("include", [0]), "defaults": [], "edges": [], "appends": None}, "milestones": []})
+            # action 2 of the base scenario depends on checkpoint 0, which the first group also uses: fine
+            if swap:
+                s["checkpoints"] = s["checkpoints"][:2] + s["checkpoints"][2:][::-1]
+                s["groups"].reverse()
+            doc = S.render(s, random.Random(rng.randrange(1 << 30)), spelling=rng.choice(["id", "alias", "mixed"]))
+            items.append(engine.Item(s, doc, "context", mutator="$v7 : %s in group 1, %s in group 12%s" % (t1, t2, " (reversed)" if swap else ""),
+                                     owner="C04", desc="same variable name, two contexts", group="ctx|%s|%s|%s" % (t1, t2, swap)))
+    return items
+
+
 def run(ctx):
     ok, thms, log = kernel.proof_step(ctx, regen=("tables",))
     rng = random.Random(ctx.seed)
@@ -62,8 +97,14 @@ def run(ctx):
         doc = S.render(s, random.Random(1), spelling="id")
         items.append(engine.Item(s, doc, "cell", mutator="%s %s %s" % (l[0], o, r[0]), owner="C04", desc="route x cell", group="%s|%s|%s" % (l[0], o, r[0])))
     # random scenarios with C04 mutants as well
-    items += engine.make_valid_items(ctx, rng, 60 if ctx.tier == "quick" else 400, variants=2)
+    items += engine.make_valid_items(ctx, rng, 40 if ctx.tier == "quick" else 300, variants=2)
+    # thread variables and threaded promises: the same variable name / reference typed in different contexts
+    items += engine.make_valid_items(ctx, rng, 60 if ctx.tier == "quick" else 400, variants=2, threads=True)
     items += engine.make_mutant_items(ctx, rng, 150 if ctx.tier == "quick" else 1500, owners=("C04",))
+    # operand typing depends on the thread context the comparison is resolved from
+    items += context_family(rng)
+    items += engine.make_mutant_items(ctx, rng, 120 if ctx.tier == "quick" else 1200,
+                                      owners=("threaded_action_compared_outside", "variable_used_outside", "threaded_checkpoint_used_outside"), threads=True)
     evaluated = engine.run_items(ctx, items)
     dis, uneval = engine.report(ctx, items, "T3 correspondence: comparison typing through the whole validator vs Coq model")
     # known finding: replay its witness
